@@ -56,7 +56,7 @@ func (f *frame) lookup(x *ssa.Lookup) {
 	v := mkSelect(mkSelect(f.st.get(vn, vs), m, arraySort(ks, es)), k, es)
 	r := vc.define(f.name(x)+"$v", mkIte(inN, v, tt.zero(mt.Elem())))
 	if hasRefs(mt.Elem()) {
-		vc.assume(tt.typeInv(r, mt.Elem(), f.curAlloc()))
+		vc.assume(tt.typeInv(r, mt.Elem(), f.st.get("A$"+vn, SBV64)))
 	}
 	if x.CommaOk {
 		f.tuples[x] = []Term{r, inN}
@@ -119,11 +119,11 @@ func (f *frame) next(x *ssa.Next) {
 	dom := mkSelect(f.st.get(dn, ds), m, arraySort(ks, SBool))
 	vc.assume(mkImplies(ok, mkAnd(mkNot(mkEq(m, i64(0))), mkSelect(dom, k, SBool))))
 	if hasRefs(mt.Key()) {
-		vc.assume(tt.typeInv(k, mt.Key(), f.curAlloc()))
+		vc.assume(tt.typeInv(k, mt.Key(), f.st.get("A$"+dn, SBV64)))
 	}
 	v = vc.define(f.name(x)+"$v", mkSelect(mkSelect(f.st.get(vn, vs), m, arraySort(ks, es)), k, es))
 	if hasRefs(mt.Elem()) {
-		vc.assume(tt.typeInv(v, mt.Elem(), f.curAlloc()))
+		vc.assume(tt.typeInv(v, mt.Elem(), f.st.get("A$"+vn, SBV64)))
 	}
 	// unused components have invalid type in the tuple
 	kk, vv := k, v
